@@ -36,6 +36,13 @@ type Ctx struct {
 	r             *roles
 	br            *batcherRoles
 	lockScopeSkip func(*ssa.Function) bool
+	unstable      map[string]bool
+	bfs           map[*ssa.Function]*boundsFn
+	bsums         map[*ssa.Function]*boundsSum
+	bsumBusy      map[*ssa.Function]bool
+	nonNeg        map[string]int
+	decScope      []*ssa.Function
+	actScope      []*ssa.Function
 	flows         map[*ssa.Function]*lockFlowResult
 }
 
